@@ -31,6 +31,8 @@ type p2pEnv struct {
 	chain  []*vhdr.Header
 	fork   []*vhdr.Header
 	closer func()
+
+	emptyTracker bool // C09: WithTrustedHead cases run with an empty peer tracker (fallback to the trusted peers)
 }
 
 func newP2PEnv(npeers int) *p2pEnv {
@@ -126,7 +128,13 @@ func (e *p2pEnv) c09Case(answers []string, order []int, trusted int, R uint64) {
 	}
 	var ex *p2p.Exchange[*vhdr.Header]
 	var opts []header.HeadOption[*vhdr.Header]
-	if trusted > 0 {
+	if trusted > 0 && e.emptyTracker {
+		// WithTrustedHead while the peer tracker is (still) empty: the trusted peers are asked instead, and their
+		// answers are verified against the trusted head all the same
+		ex = e.client(ids, 0, 2*time.Second)
+		ex.VerifSetTrackedPeers()
+		opts = append(opts, header.WithTrustedHead[*vhdr.Header](e.chain[trusted-1]))
+	} else if trusted > 0 {
 		ex = e.client(nil, 0, 2*time.Second)
 		ex.VerifSetTrackedPeers(ids...)
 		opts = append(opts, header.WithTrustedHead[*vhdr.Header](e.chain[trusted-1]))
@@ -202,7 +210,7 @@ func (e *p2pEnv) c09Case(answers []string, order []int, trusted int, R uint64) {
 	for i, o := range order {
 		os[i] = itoa(o)
 	}
-	emit("C09 n=%d trusted=%d R=%d answers=%s order=%s => head=%s err=%s", n, trusted, R, strings.Join(answers, ","), strings.Join(os, ","), r, ec)
+	emit("C09 n=%d trusted=%d fallback=%d R=%d answers=%s order=%s => head=%s err=%s", n, trusted, b2i(e.emptyTracker && trusted > 0), R, strings.Join(answers, ","), strings.Join(os, ","), r, ec)
 }
 
 func perms(n int) [][]int {
@@ -226,6 +234,7 @@ func runC09(tier string, r *rng) {
 		kv := kvOf(line)
 		trusted, _ := strconv.Atoi(kv["trusted"])
 		R, _ := strconv.ParseUint(kv["R"], 10, 64)
+		e.emptyTracker = kv["fallback"] == "1"
 		e.c09Case(strings.Split(kv["answers"], ","), atoiList(kv["order"]), trusted, R)
 		return
 	}
@@ -295,6 +304,18 @@ func runC09(tier string, r *rng) {
 			}
 		}
 		ps := perms(n)
+		e.emptyTracker = trusted > 0 && r.chance(1, 3)
 		e.c09Case(ans, ps[r.intn(len(ps))], trusted, 5)
+		e.emptyTracker = false
 	}
+	// fixed: empty tracker + trusted head 55, trusted peers answering known / adjacent fork / too-far / good heads
+	e.emptyTracker = true
+	for _, ans := range [][]string{{"main:50"}, {"fork:56"}, {"main:70"}, {"main:58"}, {"main:50", "main:58"}, {"fork:56", "main:70", "main:58"}} {
+		ord := make([]int, len(ans))
+		for i := range ord {
+			ord[i] = i
+		}
+		e.c09Case(ans, ord, 55, 5)
+	}
+	e.emptyTracker = false
 }
